@@ -46,6 +46,17 @@ func newServerPeer(srv *p9.Server) *rawPeer {
 	return p
 }
 
+// newServerPeerW is newServerPeer with the server's reply writer wrapped.
+func newServerPeerW(srv *p9.Server, wrap func(io.WriteCloser) io.WriteCloser) *rawPeer {
+	a, b := connPair()
+	p := &rawPeer{c: a, done: make(chan struct{})}
+	go func() {
+		srv.Handle(b, wrap(b))
+		close(p.done)
+	}()
+	return p
+}
+
 func (p *rawPeer) write(b []byte) error {
 	p.c.SetWriteDeadline(time.Now().Add(10 * time.Second))
 	_, err := p.c.Write(b)
